@@ -144,6 +144,9 @@ pub struct SessionCfg {
     pub prefer: Option<(String, Option<String>)>,
     /// Keyspace set at session creation (SessionBuilder::use_keyspace): (name, case sensitive).
     pub initial_keyspace: Option<(String, bool)>,
+    /// Nodes (indexes) the session's host filter rejects (AllowListHostFilter over the
+    /// addresses of all the others).
+    pub filtered_out: Vec<usize>,
 }
 
 impl Default for SessionCfg {
@@ -164,6 +167,7 @@ impl Default for SessionCfg {
             profile: None,
             prefer: None,
             initial_keyspace: None,
+            filtered_out: Vec::new(),
         }
     }
 }
@@ -223,6 +227,10 @@ pub async fn build_session(cfg: &SessionCfg) -> Result<Session, NewSessionError>
         Some((dc, None)) => b.prefer_datacenter(dc.clone()),
         None => b,
     };
+    if !cfg.filtered_out.is_empty() {
+        let allowed: Vec<SocketAddr> = (0..16).filter(|n| !cfg.filtered_out.contains(n)).map(contact_point).collect();
+        b = b.host_filter(Arc::new(scylla::policies::host_filter::AllowListHostFilter::new(allowed).expect("addresses")));
+    }
     if let Some((ks, cs)) = &cfg.initial_keyspace {
         b = b.use_keyspace(ks.clone(), *cs);
     }
